@@ -1,5 +1,15 @@
-// Hook consumers: an event logger (data events) and, later, the turn-based scheduler.
-use std::sync::{Arc, Mutex};
+// Hook consumers: an event logger (data events) and the turn-based scheduler used for C04 / C09.
+//
+// `threads <db> <script>`: runs reader / writer threads against one DB under a scripted schedule.
+// Every yield point of the library (hook names listed in the script) parks the calling thread until
+// the controller grants it the turn. The controller follows the schedule: "grant thread t" = let t run
+// from its current yield point to the next one (or to completion). If t does not arrive anywhere within
+// the timeout it is reported as blocked (it keeps running and will park at its next yield point later).
+use jammdb::{OpenOptions, DB};
+use std::collections::HashMap;
+use std::sync::atomic::{AtomicU64, AtomicUsize, Ordering};
+use std::sync::{Arc, Condvar, Mutex};
+use std::time::{Duration, Instant};
 
 static LOG: Mutex<Vec<String>> = Mutex::new(Vec::new());
 
@@ -15,7 +25,352 @@ pub fn take_log() -> Vec<String> {
     std::mem::take(&mut *LOG.lock().unwrap())
 }
 
-pub fn main(_args: &[String]) -> i32 {
-    eprintln!("threads: not built yet");
-    2
+// ---------------------------------------------------------------------------------------------
+thread_local! {
+    static TID: std::cell::Cell<usize> = std::cell::Cell::new(usize::MAX);
+}
+
+#[derive(Clone, Debug, PartialEq)]
+enum TState {
+    Running,
+    Parked(String, Vec<u64>),
+    Done,
+}
+
+struct Ctl {
+    state: Vec<TState>,
+    turn: Option<usize>,
+    events: Vec<String>, // data events (tx_begin, publish ...) tagged with the thread
+}
+
+struct Shared {
+    m: Mutex<Ctl>,
+    cv: Condvar,
+    yields: Vec<String>,
+}
+
+static WRITERS_INSIDE: AtomicUsize = AtomicUsize::new(0);
+static OVERLAP: AtomicUsize = AtomicUsize::new(0);
+static COMMITS_DONE: AtomicU64 = AtomicU64::new(0);
+
+fn park(sh: &Shared, tid: usize, name: &str, nums: &[u64]) {
+    let mut g = sh.m.lock().unwrap();
+    g.state[tid] = TState::Parked(name.to_string(), nums.to_vec());
+    sh.cv.notify_all();
+    while g.turn != Some(tid) {
+        g = sh.cv.wait(g).unwrap();
+    }
+    g.turn = None;
+    g.state[tid] = TState::Running;
+    sh.cv.notify_all();
+}
+
+const NKEYS: usize = 16;
+
+fn val(n: u64, big: bool) -> Vec<u8> {
+    let mut v = format!("{:08}", n).into_bytes();
+    v.resize(if big { 2500 } else { 300 }, b'.');
+    v
+}
+
+fn read_state(db: &DB, tx: &jammdb::Tx) -> String {
+    // all keys must carry the same generation number
+    let _ = db;
+    match tx.get_bucket("b") {
+        Err(_) => "gen=0".to_string(),
+        Ok(b) => {
+            let mut gens = Vec::new();
+            for kv in b.kv_pairs() {
+                let v = kv.value();
+                let g = std::str::from_utf8(&v[..8.min(v.len())]).unwrap_or("????????").to_string();
+                if !gens.contains(&g) {
+                    gens.push(g);
+                }
+            }
+            if gens.len() == 1 {
+                format!("gen={}", gens[0].trim_start_matches('0').parse::<u64>().unwrap_or(0))
+            } else {
+                format!("MIXED{:?}", gens)
+            }
+        }
+    }
+}
+
+fn reader_prog(sh: &Shared, tid: usize, db: &DB) -> String {
+    let before = COMMITS_DONE.load(Ordering::SeqCst);
+    let tx = match db.tx(false) {
+        Ok(t) => t,
+        Err(e) => return format!("reader begin error {:?}", e),
+    };
+    let s1 = read_state(db, &tx);
+    park(sh, tid, "client:mid", &[]);
+    let s2 = read_state(db, &tx);
+    park(sh, tid, "client:end", &[]);
+    let s3 = read_state(db, &tx);
+    drop(tx);
+    format!("reader completed_before_begin={} first={} mid={} last={}", before, s1, s2, s3)
+}
+
+fn writer_prog(sh: &Shared, tid: usize, db: &DB, big: bool) -> String {
+    let _ = (sh, tid);
+    let tx = match db.tx(true) {
+        Ok(t) => t,
+        Err(e) => return format!("writer begin error {:?}", e),
+    };
+    if WRITERS_INSIDE.fetch_add(1, Ordering::SeqCst) != 0 {
+        OVERLAP.fetch_add(1, Ordering::SeqCst);
+    }
+    let r = (|| -> Result<u64, jammdb::Error> {
+        let b = tx.get_or_create_bucket("b")?;
+        let cur = match b.get_kv("k00") {
+            Some(kv) => std::str::from_utf8(&kv.value()[..8]).unwrap().trim_start_matches('0').parse::<u64>().unwrap_or(0),
+            None => 0,
+        };
+        let n = cur + 1;
+        for i in 0..NKEYS {
+            b.put(format!("k{:02}", i).into_bytes(), val(n, big && i == 3))?;
+        }
+        Ok(n)
+    })();
+    let out = match r {
+        Err(e) => {
+            WRITERS_INSIDE.fetch_sub(1, Ordering::SeqCst);
+            return format!("writer error {:?}", e);
+        }
+        Ok(n) => n,
+    };
+    WRITERS_INSIDE.fetch_sub(1, Ordering::SeqCst);
+    match tx.commit() {
+        Ok(()) => {
+            COMMITS_DONE.fetch_add(1, Ordering::SeqCst);
+            format!("writer committed gen={}", out)
+        }
+        Err(e) => format!("writer commit error {:?}", e),
+    }
+}
+
+pub fn main(args: &[String]) -> i32 {
+    // threads <db> <script> [--pagesize N] [--num-pages N] [--timeout-ms N]
+    let path = args[0].clone();
+    let script = std::fs::read_to_string(&args[1]).unwrap();
+    let mut pagesize = 1024u64;
+    let mut num_pages = 64usize;
+    let mut timeout_ms = 150u64;
+    let mut i = 2;
+    while i < args.len() {
+        match args[i].as_str() {
+            "--pagesize" => {
+                pagesize = args[i + 1].parse().unwrap();
+                i += 1
+            }
+            "--num-pages" => {
+                num_pages = args[i + 1].parse().unwrap();
+                i += 1
+            }
+            "--timeout-ms" => {
+                timeout_ms = args[i + 1].parse().unwrap();
+                i += 1
+            }
+            _ => {}
+        }
+        i += 1;
+    }
+    // script: "yield <name>..." ; "thread r" | "thread w" | "thread W" (big value: forces growth) ; "init <n>" ; "sched <tid>..."
+    let mut yields: Vec<String> = Vec::new();
+    let mut progs: Vec<String> = Vec::new();
+    let mut sched: Vec<usize> = Vec::new();
+    let mut init = 2u64;
+    for line in script.lines() {
+        let w: Vec<&str> = line.split_whitespace().collect();
+        if w.is_empty() {
+            continue;
+        }
+        match w[0] {
+            "yield" => yields.extend(w[1..].iter().map(|s| s.to_string())),
+            "thread" => progs.push(w[1].to_string()),
+            "init" => init = w[1].parse().unwrap(),
+            "sched" => sched.extend(w[1..].iter().map(|s| s.parse::<usize>().unwrap())),
+            _ => {}
+        }
+    }
+    let db = OpenOptions::new().pagesize(pagesize).num_pages(num_pages).open(&path).unwrap();
+    // initial commits (unscheduled): generations 1..=init
+    let sh = Arc::new(Shared {
+        m: Mutex::new(Ctl { state: vec![TState::Running; progs.len()], turn: None, events: Vec::new() }),
+        cv: Condvar::new(),
+        yields: yields.clone(),
+    });
+    for _ in 0..init {
+        let dummy = Shared { m: Mutex::new(Ctl { state: vec![], turn: None, events: vec![] }), cv: Condvar::new(), yields: vec![] };
+        let r = writer_prog(&dummy, 0, &db, false);
+        println!("init {}", r);
+    }
+    {
+        let sh2 = sh.clone();
+        jammdb::verif_hooks::set_callback(Some(Arc::new(move |name: &str, nums: &[u64], _b: &[u8]| {
+            let tid = TID.with(|t| t.get());
+            if tid == usize::MAX {
+                return;
+            }
+            if sh2.yields.iter().any(|y| y == name) {
+                park(&sh2, tid, name, nums);
+            } else if name == "tx_begin" || name == "publish" || name == "tx_end_ro" {
+                let ns: Vec<String> = nums.iter().map(|n| n.to_string()).collect();
+                sh2.m.lock().unwrap().events.push(format!("event t={} {} {}", tid, name, ns.join(",")));
+            }
+        })));
+    }
+    let results: Arc<Mutex<HashMap<usize, String>>> = Arc::new(Mutex::new(HashMap::new()));
+    let db = Arc::new(db);
+    let mut handles = Vec::new();
+    for (tid, p) in progs.iter().enumerate() {
+        let sh2 = sh.clone();
+        let db2 = db.clone();
+        let res2 = results.clone();
+        let p = p.clone();
+        handles.push(std::thread::spawn(move || {
+            TID.with(|t| t.set(tid));
+            park(&sh2, tid, "start", &[]);
+            let r = match p.as_str() {
+                "r" => reader_prog(&sh2, tid, &db2),
+                "w" => writer_prog(&sh2, tid, &db2, false),
+                _ => writer_prog(&sh2, tid, &db2, true),
+            };
+            res2.lock().unwrap().insert(tid, r);
+            let mut g = sh2.m.lock().unwrap();
+            g.state[tid] = TState::Done;
+            sh2.cv.notify_all();
+        }));
+    }
+    // controller
+    let wait_settled = |tid: usize, ms: u64| -> TState {
+        let deadline = Instant::now() + Duration::from_millis(ms);
+        let mut g = sh.m.lock().unwrap();
+        loop {
+            if g.turn.is_none() {
+                if let TState::Parked(..) | TState::Done = g.state[tid] {
+                    return g.state[tid].clone();
+                }
+            }
+            let now = Instant::now();
+            if now >= deadline {
+                return g.state[tid].clone();
+            }
+            let (g2, _) = sh.cv.wait_timeout(g, deadline - now).unwrap();
+            g = g2;
+        }
+    };
+    for t in 0..progs.len() {
+        wait_settled(t, 2000);
+    }
+    let drain_events = |sh: &Shared| {
+        let evs = std::mem::take(&mut sh.m.lock().unwrap().events);
+        for e in evs {
+            println!("{}", e);
+        }
+    };
+    let mut step = 0;
+    let mut pending: Vec<usize> = sched.clone();
+    // after the script: round-robin until everything is done (bounded)
+    let mut extra = 0;
+    loop {
+        let t = if !pending.is_empty() {
+            pending.remove(0)
+        } else {
+            let g = sh.m.lock().unwrap();
+            let alive: Vec<usize> = (0..progs.len()).filter(|i| g.state[*i] != TState::Done).collect();
+            drop(g);
+            if alive.is_empty() || extra > 400 {
+                break;
+            }
+            extra += 1;
+            alive[extra % alive.len()]
+        };
+        let before = { sh.m.lock().unwrap().state[t].clone() };
+        match before {
+            TState::Done => {
+                println!("step {} grant {} -> already-done", step, t);
+            }
+            TState::Running => {
+                // was blocked inside the library at an earlier grant: see whether it has arrived meanwhile
+                let st = wait_settled(t, timeout_ms);
+                println!("step {} poll {} -> {}", step, t, fmt_state(&st));
+            }
+            TState::Parked(..) => {
+                {
+                    let mut g = sh.m.lock().unwrap();
+                    g.turn = Some(t);
+                    sh.cv.notify_all();
+                }
+                // wait until it took the turn and settled again (or timed out = blocked inside the library)
+                let deadline = Instant::now() + Duration::from_millis(timeout_ms);
+                let mut g = sh.m.lock().unwrap();
+                loop {
+                    if g.turn.is_none() {
+                        match g.state[t] {
+                            TState::Parked(..) | TState::Done => break,
+                            _ => {}
+                        }
+                    }
+                    let now = Instant::now();
+                    if now >= deadline {
+                        break;
+                    }
+                    let (g2, _) = sh.cv.wait_timeout(g, deadline - now).unwrap();
+                    g = g2;
+                }
+                let st = g.state[t].clone();
+                drop(g);
+                let locks = db.verif_probe_locks();
+                println!("step {} grant {} from {} -> {} locks={}", step, t, fmt_state(&before), fmt_state(&st),
+                         locks.iter().map(|b| if *b { '1' } else { '0' }).collect::<String>());
+            }
+        }
+        drain_events(&sh);
+        step += 1;
+    }
+    // let everything finish
+    {
+        let mut g = sh.m.lock().unwrap();
+        g.turn = None;
+    }
+    let all_done = {
+        let g = sh.m.lock().unwrap();
+        g.state.iter().all(|s| *s == TState::Done)
+    };
+    if !all_done {
+        println!("STUCK states={:?}", sh.m.lock().unwrap().state.iter().map(fmt_state).collect::<Vec<_>>());
+        // do not join: threads may be blocked forever
+        let res = results.lock().unwrap();
+        for (t, r) in res.iter() {
+            println!("result {} {}", t, r);
+        }
+        std::process::exit(0);
+    }
+    for h in handles {
+        let _ = h.join();
+    }
+    jammdb::verif_hooks::set_callback(None);
+    let res = results.lock().unwrap();
+    let mut ks: Vec<&usize> = res.keys().collect();
+    ks.sort();
+    for t in ks {
+        println!("result {} {}", t, res[t]);
+    }
+    println!("overlap {}", OVERLAP.load(Ordering::SeqCst));
+    println!("commits {}", COMMITS_DONE.load(Ordering::SeqCst));
+    // final state
+    let tx = db.tx(false).unwrap();
+    println!("final {}", read_state(&db, &tx));
+    drop(tx);
+    println!("check {}", match db.check() { Ok(()) => "ok".to_string(), Err(e) => format!("{:?}", e) });
+    0
+}
+
+fn fmt_state(s: &TState) -> String {
+    match s {
+        TState::Running => "blocked".to_string(),
+        TState::Done => "done".to_string(),
+        TState::Parked(n, nums) => format!("{}[{}]", n, nums.iter().map(|x| x.to_string()).collect::<Vec<_>>().join(",")),
+    }
 }
